@@ -607,7 +607,8 @@ def check_dependency_registration(model, rep, rule='R02.9'):
     """Every builder.compile(e) call records the edge origin -> e BEFORE looking at the cache of compiled evaluables: the
     constant-intermediate cache and the rerun filter are computed from these edges, also for the second consumer of e."""
     f = model.func('evaluable:_BlockTreeBuilder.compile')
-    reg = [s for s in f.body if isinstance(s, ast.Expr) and src(s.value).replace(' ', '') == 'self._evaluable_deps.setdefault(self._origin,util.IDSet()).add(evaluable)']
+    # an unconditional statement of the function body that adds the evaluable to the edge set of the origin (setdefault(...).add or [origin].add after creating the set)
+    reg = [s for s in f.body if isinstance(s, ast.Expr) and src(s.value).replace(' ', '') in ('self._evaluable_deps.setdefault(self._origin,util.IDSet()).add(evaluable)', 'self._evaluable_deps[self._origin].add(evaluable)')]
     look = [s for s in f.body if isinstance(s, ast.If) and '_compiled_cache.get(evaluable)' in src(s.test)]
     ok = len(reg) == 1 and len(look) == 1 and reg[0].lineno < look[0].lineno
     rep.ob(rule, f.key, f.where(reg[0]) if reg else f.where(), ok, 'the dependency edge is recorded unconditionally, before the compiled-cache lookup' if ok else
